@@ -195,6 +195,8 @@ Example cache_hypotheses_hold_on_a_history :
     map (fun pb => poa_fresh N x_all x_funded x_mbp (fst pb)) x_steps /\
   pos_run N N.eqb (list cand) y_hk y_of y_judge [] y_steps = map (fun pb => y_of (fst pb)) y_steps.
 Proof. exact (conj poa_cache_hypotheses_instance pos_cache_hypotheses_instance). Qed.
+(* (the judge of these histories is a toy that accepts every block and returns the proposer list it was given; the lossy variant is
+   instantiated by ExamplesCache.poa_cache_lossy_instance; the `process`-level statements 5 above are not instantiated in-tree) *)
 
 (* ---- non-vacuity: the concrete PoA-v2 parent of Properties/C02.v; the model packer builds a block on it and the
         validator model accepts it with the same state *)
@@ -300,6 +302,7 @@ Print Assumptions poa_v1_score_positive.
 Print Assumptions pos_score_at_least_one.
 Print Assumptions pos_galactica_packed_block_accepted.
 Print Assumptions pos_score_zero_block_rejected.
+Print Assumptions p_premises.
 Print Assumptions cache_hypotheses_hold_on_a_history.
 
 (* ================================================================ composition *)
